@@ -1,5 +1,5 @@
 (** * C09 -- interpreter gate names *)
-From QV Require Import Interp ScalarR C09T.
+From QV Require Import Interp ScalarR C09T Form2P DftP C09T2.
 
 Theorem C09_table : C09_table_stmt.
 Proof. exact C09_table_proof. Qed.
@@ -12,3 +12,15 @@ Print Assumptions C09_prefix.
 Theorem C09_prefix_semantics : C09_prefix_semantics_stmt.
 Proof. exact C09_prefix_semantics_proof. Qed.
 Print Assumptions C09_prefix_semantics.
+
+Theorem C09_u3 : C09_u3_stmt.
+Proof. exact C09_u3_proof. Qed.
+Print Assumptions C09_u3.
+
+Theorem C09_u2_u1 : C09_u2_u1_stmt.
+Proof. exact C09_u2_u1_proof. Qed.
+Print Assumptions C09_u2_u1.
+
+Theorem C09_controlled : C09_controlled_stmt.
+Proof. exact C09_controlled_proof. Qed.
+Print Assumptions C09_controlled.
